@@ -32,7 +32,8 @@ const INPUTS = {
   long: { file: '/p/i.js', code: 'function f(a, b, o) {\n  { let x = a + g() + h(); }\n  { o.p += b.trim() + `${a}${g()}`; }\n  for (const q of o) { if (q?.trim().length) { b += q } }\n  return a.concat(b, g())\n}\n' }
 }
 const OTHER = Object.assign({}, C.PLUS_ONLY, { localVarPrefix: 'zz', comments: false, chainSourceMap: false, literals: false, telemetryVerbosity: 'OFF' })
-const INSTANCES = { R1: BASE, R2: BASE, R3: NOPREFIX, R4: OTHER }
+const DEFAULT_VERBOSITY = Object.assign({}, BASE); delete DEFAULT_VERBOSITY.telemetryVerbosity
+const INSTANCES = { R1: BASE, R2: BASE, R3: NOPREFIX, R4: OTHER, R5: DEFAULT_VERBOSITY }
 
 function alphabet (tier) {
   const out = []
@@ -40,6 +41,10 @@ function alphabet (tier) {
   out.push('R3:mod'); out.push('R3:long')
   // a rewriter with a DIFFERENT configuration interleaved with the others
   out.push('R4:mod'); out.push('R4:long'); out.push('R4:chained')
+  // what another rewriter's setLogger does to the process (process-wide `log` logger and maximum level)
+  out.push('LOG:DEBUG'); out.push('LOG:ERROR')
+  // default (INFORMATION) verbosity next to them
+  out.push('R5:mod'); out.push('R5:chained')
   return out
 }
 
@@ -62,6 +67,7 @@ async function build (tier) {
 
 function reqOf (sym) {
   const [inst, inp] = sym.split(':')
+  if (inst === 'LOG') return { op: 'logger', level: inp }
   return { rewriter: inst, config: INSTANCES[inst], file: INPUTS[inp].file, code: INPUTS[inp].code, vfs: INPUTS[inp].vfs || {} }
 }
 
@@ -168,6 +174,6 @@ module.exports = {
   check,
   inflight: 4,
   rule: 'leaf = history (sequence of (rewriter instance, input) calls, length <= h, plus each call repeated 25x); each history runs in its own fresh process; non-trivial = every history (each compares >= 1 call with an independent fresh-process reference); distinct by the sequence',
-  explanation: 'breadth-first enumeration of ALL call histories up to length h over a 20-symbol alphabet (modified / not modified / syntax error / cancelled / chained / two map comments / literal-heavy / multi-block inputs on two same-config instances and one default-prefix instance); invariant after every call: result == fresh single call',
+  explanation: 'breadth-first enumeration of ALL call histories up to length h over a 35-symbol alphabet (modified / not modified / syntax error / cancelled / chained / two map comments / literal-heavy / multi-block inputs on two same-config instances and one default-prefix instance); invariant after every call: result == fresh single call',
   assumptions: ['native process stands in for the wasm instance (process-wide statics behave alike)', 'contents under a default (random) prefix are compared after renaming __datadog_[a-z]{6}_ consistently', 'literal lists compared as sets (hash-map order is not part of the result)']
 }
